@@ -149,6 +149,34 @@ def run_overlay(P, rep, rule="R-OVERLAY"):
             for b2 in afirst:
                 if b2 in rs and b2 not in rn:
                     probs.append("first/last/size overlay is consulted for an integer index")
+    # a missing first/last/element stays missing: the Option of ArrayView::first/last/get is only mapped, never defaulted
+    for b0 in afirst + aget:
+        t0 = calls[b0]
+        if t0["f"]["id"].rsplit("::", 1)[1] == "size":
+            continue
+        holders = {t0["d"][0]}
+        changed = True
+        while changed:
+            changed = False
+            for b2, t2 in calls.items():
+                a0 = op_local(t2["args"][0]) if t2.get("args") else None
+                if not (a0 and a0[0] in holders and t2.get("f")):
+                    continue
+                last = t2["f"]["id"].rsplit("::", 1)[1]
+                if last == "map":
+                    if t2["d"][0] not in holders:
+                        holders.add(t2["d"][0])
+                        changed = True
+                elif last in ("unwrap_or_default", "unwrap_or", "unwrap_or_else", "or", "or_else", "map_or", "map_or_else", "unwrap", "expect", "get_or_insert_with"):
+                    p_ = "a missing array element is defaulted with `%s` instead of staying missing (the lookup must fail / be absent)" % last
+                    if p_ not in probs:
+                        probs.append(p_)
+            for b in fn.blocks:
+                for st in b["s"]:
+                    if st[0] == "a" and not st[1][1] and st[2]["k"] == "use" and op_local(st[2]["o"]) and op_local(st[2]["o"])[0] in holders \
+                            and not op_local(st[2]["o"])[1] and st[1][0] not in holders:
+                        holders.add(st[1][0])
+                        changed = True
     if len(oget) != 1:
         probs.append("object lookup shape changed (ObjectView::get x%d)" % len(oget))
     else:
@@ -306,3 +334,36 @@ def run_noclamp(P, rep, rule="R-NOCLAMP"):
                 rep.viol(rule, "convert_index arithmetic", P.where(fn), "the negative-index conversion does not add the two parameters")
         else:
             rep.viol(rule, "convert_index arithmetic", P.where(fn), "expected exactly one addition (size + index), found adds=%d other=%d" % (len(adds), len(subs)))
+
+
+# ---------------------------------------------------------------------------------------
+# R-PATHVERBATIM: evaluated index values enter the lookup path unmodified
+
+PATH_ALLOW_LAST = {"evaluate", "try_evaluate", "into_scalar", "as_scalar", "branch", "from_residual", "ok_or_else", "ok_or", "ok", "into_iter",
+                   "next", "iter", "as_ref", "deref", "from", "into", "clone", "as_view"}
+
+
+def run_path_verbatim(P, rep, rule="R-PATHVERBATIM"):
+    """Variable::evaluate / try_evaluate: what is pushed onto the Path is the scalar view of the evaluated index expression itself;
+    no conversion (to_integer, to_kstr, ScalarCow::new, parse ..) sits between the evaluation and Path::push, so an object key keeps
+    its exact spelling and an integer index its value."""
+    for key in ("<liquid_core::runtime::variable::Variable>::evaluate", "<liquid_core::runtime::variable::Variable>::try_evaluate"):
+        fn = P.fn_by_key(key)
+        site = key.rsplit(">::", 1)[0].rsplit("::", 1)[-1] + "::" + key.rsplit("::", 1)[1]
+        pushes = [(bi, t) for bi, t in P.calls(fn) if t.get("f") and t["f"]["name"].replace("::<'s>", "").endswith("Path::push")]
+        if len(pushes) != 1:
+            rep.viol(rule, site, P.where(fn), "expected one Path::push, found %d" % len(pushes))
+            continue
+        bi, t = pushes[0]
+        ol = op_local(t["args"][1])
+        locs, calls = backward_slice(fn, ol[0]) if ol else (set(), [])
+        evals = [c for c in calls if c.get("f") and c["f"]["id"].rsplit("::", 1)[1] in ("evaluate", "try_evaluate") and "Expression" in c["f"]["name"]]
+        bad = [c for c in calls if c.get("f") and c["f"]["id"].rsplit("::", 1)[1] not in PATH_ALLOW_LAST]
+        if not evals:
+            rep.viol(rule, site, P.where(fn, t["line"]), "the pushed index does not derive from Expression::evaluate/try_evaluate")
+        elif bad:
+            for c in bad[:3]:
+                rep.viol(rule, site + " via " + c["f"]["id"].rsplit("::", 1)[1], P.where(fn, c["line"]),
+                         "the index passes through `%s` between its evaluation and Path::push: keys/indexes must reach the lookup exactly as evaluated" % c["f"]["name"])
+        else:
+            rep.ok(rule, site, P.where(fn, t["line"]), "Path::push(scalar view of the evaluated index); no conversion in between")
